@@ -46,6 +46,43 @@ func KgsimAcquireResult(errText string, accept bool, limit int32, requestTime in
 	}
 }
 `,
+	"pkg/ratelimiter/limiter/zz_kgsim_export.go": `package limiter
+
+import (
+	"sort"
+
+	"github.com/kubewharf/kubegateway/pkg/ratelimiter/limiter/elector"
+)
+
+// KgsimLeaderCheck runs one round of the periodic leader check (kgsim worker build only).
+func KgsimLeaderCheck(r RateLimiter) { r.(*rateLimiter).leaderCheck() }
+
+// KgsimElector returns the limiter's leader elector.
+func KgsimElector(r RateLimiter) elector.LeaderElector { return r.(*rateLimiter).leaderElector }
+
+// KgsimStoreShards lists the shards the limiter holds an in-memory store for.
+func KgsimStoreShards(r RateLimiter) []int {
+	rl := r.(*rateLimiter)
+	rl.limitStoreLock.RLock()
+	defer rl.limitStoreLock.RUnlock()
+	var out []int
+	for s := range rl.limitStoreMap {
+		out = append(out, s)
+	}
+	sort.Ints(out)
+	return out
+}
+`,
+	"pkg/ratelimiter/limiter/elector/zz_kgsim_export.go": `package elector
+
+// The three events client-go's leader election delivers for a shard, as the
+// elector handles them (kgsim worker build only).
+func KgsimStartLeading(e LeaderElector, shard int) { e.(*leaderElector).startLeading(shard) }
+func KgsimStopLeading(e LeaderElector, shard int)  { e.(*leaderElector).stopLeading(shard) }
+func KgsimNewLeader(e LeaderElector, shard int, identity string) {
+	e.(*leaderElector).setLeader(shard, identity)
+}
+`,
 }
 
 // InstrTargets lists the files of /repo that get yield points (DESIGN §2.5).
@@ -56,8 +93,10 @@ var InstrTargets = []instr.Target{
 	{File: "pkg/flowcontrols/remote/global_flowcontrol.go", Funcs: []string{"maxInflightWrapper.SetLimit", "maxInflightWrapper.Resize", "maxInflightWrapper.resize", "maxInflightWrapper.TryAcquire", "maxInflightWrapper.Release", "tokenBucketWrapper.SetLimit", "tokenBucketWrapper.Resize", "tokenBucketWrapper.TryAcquire"}},
 	{File: "pkg/flowcontrols/limiter.go", All: true, Funcs: []string{"upstreamLimiter.Load", "upstreamLimiter.syncLocalFlowControls"}},
 	{File: "pkg/clusters/clusterinfo.go", All: true, Funcs: []string{"endpointPickStrategy.Pop", "ClusterInfo.MatchAttributes", "ClusterInfo.Sync", "ClusterInfo.syncEndpoints", "ClusterInfo.addOrUpdateEndpoint"}},
-	{File: "pkg/gateway/controllers/upstream_controller.go", Funcs: []string{"UpstreamClusterController.syncUpstreamCluster", "UpstreamClusterController.AddOrUpdateForServerNames", "UpstreamClusterController.checkServerNameConflict", "UpstreamClusterController.checkUpstreamServerNameConflict", "UpstreamClusterController.DeleteForServerNames"}},
-	{File: "pkg/ratelimiter/limiter/ratelimter.go", Funcs: []string{"rateLimiter.UpdateRateLimitConditionStatus", "rateLimiter.UpstreamConditionHandler", "rateLimiter.calculateUpstreamCondition", "rateLimiter.deleteCondition"}},
+	{File: "pkg/gateway/controllers/upstream_controller.go", All: true, Funcs: []string{"UpstreamClusterController.syncUpstreamCluster", "UpstreamClusterController.AddOrUpdateForServerNames", "UpstreamClusterController.checkServerNameConflict", "UpstreamClusterController.checkUpstreamServerNameConflict", "UpstreamClusterController.DeleteForServerNames"}},
+	{File: "pkg/ratelimiter/limiter/ratelimter.go", Funcs: []string{"rateLimiter.UpdateRateLimitConditionStatus", "rateLimiter.UpstreamConditionHandler", "rateLimiter.calculateUpstreamCondition", "rateLimiter.deleteCondition",
+		"rateLimiter.leaderCheck", "rateLimiter.startLeading", "rateLimiter.stopLeading", "rateLimiter.getLimitStoreForShard", "rateLimiter.GetRateLimitCondition", "rateLimiter.DoAcquire", "rateLimiter.syncUpstreamClustersForShard"}},
+	{File: "pkg/ratelimiter/limiter/elector/leader_elector.go", All: true, Funcs: []string{"leaderElector.startLeading", "leaderElector.stopLeading", "leaderElector.setLeader", "leaderElector.GetLeaders", "leaderElector.IsLeader"}},
 	// the process id is part of every gateway instance's name; names are hashed
 	// (sync.Map of known clients on the server), so a different pid would mean
 	// another iteration order there. In the worker every process is pid 4242.
@@ -77,6 +116,24 @@ var InstrTargets = []instr.Target{
 		{Name: "sorted-list", Count: 2, Old: "\treturn results\n}", New: "\tsort.Slice(results, func(i, j int) bool { return results[i].Name < results[j].Name })\n\treturn results\n}"},
 		{Name: "import-sort", Count: 1, Old: "import (\n", New: "import (\n\t\"sort\"\n"},
 	}},
+	// The shipped filters start metric recorders that never exit; the gw world fires
+	// them before it enters its bubble (PreBubble), so they tick on the REAL clock
+	// (every 10 s). A goroutine woken by a real timer takes the processor's next slot
+	// and moves the scheduler's fairness tick: on a loaded machine, where a run can
+	// last that long, the same seed then ran differently. In the worker they tick
+	// once per 100000 h. (They feed metrics only.)
+	{File: "pkg/gateway/endpoints/filters/requestrate.go", NoYield: true, Patches: []instr.Patch{
+		{Name: "no-real-tick", Count: 1, Old: "rateMetricRecordPeriod = time.Second * 10", New: "rateMetricRecordPeriod = time.Hour * 100000"},
+	}},
+	{File: "pkg/gateway/endpoints/filters/readerwriter.go", NoYield: true, Patches: []instr.Patch{
+		{Name: "no-real-tick", Count: 1, Old: "throughputMetricRecordPeriod = time.Second * 10", New: "throughputMetricRecordPeriod = time.Hour * 100000"},
+	}},
+	{File: "pkg/gateway/endpoints/monitor/rate.go", NoYield: true, Patches: []instr.Patch{
+		{Name: "no-real-tick", Count: 1, Old: "rateMeterTickDuration = time.Second * 10", New: "rateMeterTickDuration = time.Hour * 100000"},
+	}},
+	{File: "pkg/gateway/endpoints/monitor/throughput.go", NoYield: true, Patches: []instr.Patch{
+		{Name: "no-real-tick", Count: 1, Old: "throughputTickDuration   = time.Second * 10", New: "throughputTickDuration   = time.Hour * 100000"},
+	}},
 	{File: "pkg/ratelimiter/store/k8s/cache_store.go", All: true, Funcs: []string{"objectStore.Save", "objectStore.Delete", "objectStore.DeleteUpstream", "objectStore.Load", "objectStore.Stop", "objectStore.createOrUpdate", "objectStore.doSyncLocked"}},
 }
 
@@ -84,6 +141,14 @@ var InstrTargets = []instr.Target{
 var GolibTarget = instr.Target{File: "lock/maxinflight/max_inflight.go", Funcs: []string{"atomicTokenBucket.TryAcquire", "atomicTokenBucket.Release", "atomicTokenBucket.Resize"}}
 
 const GolibModule = "github.com/zoumo/golib"
+
+// ModulePatches: literal replacements in files of dependency modules (overlay
+// entries for files of the module cache), each must match exactly once.
+// klog starts a flush daemon at init that ticks every 5 s of REAL time for the
+// life of the process: see the note on the metric recorders above.
+var ModulePatches = map[string]map[string][][2]string{
+	"k8s.io/klog": {"klog.go": {{"const flushInterval = 5 * time.Second", "const flushInterval = 100000 * time.Hour // kgsim: see harness/meta"}}},
+}
 
 var gwReal = []string{"shipped proxy handler chain (hook H2: buildProxyHandlerChainFunc: request info, upstream info, authentication, impersonation, dispatcher ...)", "multi-cluster TokenReview authenticator and SubjectAccessReview authorizer with their caches", "UpstreamClusterController with shared informer and syncqueue", "clusters.Manager / ClusterInfo / EndpointInfo incl. GatewayHealthCheck probing", "per-endpoint client-go transports (bearer, impersonation, CancelableTransport, http.Transport) over in-bubble pipes (hook H1)", "dispatcher, UpgradeAwareHandler (non-upgrade path), vendored reverse proxy, local flow control", "upstreamcluster admission plugin (Admit + Validate) in front of the store"}
 
@@ -124,10 +189,10 @@ func init() {
 		Title: "Local max-in-flight: never more than M admitted and unfinished; slots never leak",
 		Batches: []Batch{
 			{World: "ilv", Profile: "c05-static", Quick: 1500, Thor: 60000, PerProc: 250, FaultFree: true},
-			{World: "ilv", Profile: "c05-reconf", Quick: 3000, Thor: 120000, PerProc: 250},
+			{World: "ilv", Profile: "c05-reconf", Quick: 40000, Thor: 2000000, PerProc: 2500},
 			{World: "gw", Profile: "c05h-exits", Quick: 120, Thor: 6000, PerProc: 1},
 		},
-		Rule: "each run = drawn workload (2-4 request threads doing GetOrDefault/TryAcquire/Release exactly like the dispatcher, one configuration thread issuing Sync with resizes, type changes, delete/re-add; bystander schema and cluster) under one drawn statement-level schedule; distinct = distinct trace hash; non-trivial = operations overlapped AND at least one request was refused (the bound was reached). Profile c05h-exits (gw world): real HTTP requests under a max-in-flight policy ending as upstream success, upstream 5xx, reset, truncated body (reverse-proxy abort path), no ready endpoint, client abort while the stub holds the response, interleaved with resizes and bystander schema/cluster traffic; after draining exactly M concurrent probes must be forwarded and the M+1-th get 429. The schema starts as a max-in-flight schema or (reconf profile, one run in three) as a token-bucket, exempt or absent one that becomes max-in-flight later; an acquire that panics inside the limiter (answered 500 by the panic filter) is a separate outcome that neither admits nor refuses",
+		Rule: "each run = drawn workload (2-4 request threads doing GetOrDefault/TryAcquire/Release exactly like the dispatcher, one configuration thread issuing Sync with resizes, type changes, delete/re-add; bystander schema and cluster) under one drawn statement-level schedule; distinct = distinct trace hash; non-trivial = operations overlapped AND at least one request was refused (the bound was reached). Profile c05h-exits (gw world): real HTTP requests under a max-in-flight policy ending as upstream success, upstream 5xx, reset, truncated body (reverse-proxy abort path), no ready endpoint, client abort while the stub holds the response, interleaved with resizes and bystander schema/cluster traffic; after draining exactly M concurrent probes must be forwarded and the M+1-th get 429. The schema starts as a max-in-flight schema or (reconf profile, one run in three) as a token-bucket, exempt or absent one that becomes max-in-flight later; an acquire that panics inside the limiter (answered 500 by the panic filter) is a separate outcome that neither admits nor refuses. Request threads (2-5, 1-4 requests each) idle for 0-3 steps before a request and 0-3 while it is served; the configuration thread issues 1-6 reconfigurations with idle steps in between, mostly re-creating the schema as max-in-flight when it is something else, runs at a drawn multiple (1/4/16/48) of the requests' pace and, one run in two, is left alone once for 20-140 steps at a drawn statement",
 		Real: []string{"pkg/flowcontrols (UpstreamLimiter, syncLocalFlowControls), pkg/flowcontrols/remote (FlowControlCache, localWrapper, meterWrapper), pkg/flowcontrols/flowcontrol, github.com/zoumo/golib/lock/maxinflight atomicTokenBucket — all yield-instrumented copies of the current tree", "pkg/flowcontrols/util Meter (background statistics goroutines, uninstrumented, real time)"},
 		Stub: []string{"request/configuration threads, the cooperative scheduler"},
 		Assume: []string{
@@ -144,7 +209,7 @@ func init() {
 			{World: "ilv", Profile: "c14-rr", Quick: 3000, Thor: 100000, PerProc: 250, FaultFree: true},
 			{World: "gw", Profile: "c14h-http", Quick: 100, Thor: 5000, PerProc: 1, FaultFree: true},
 		},
-		Rule: "each run = drawn cluster (1-5 endpoints, explicit subset in drawn order or all endpoints with tape-permuted map order), 1-3 concurrent picker threads of the measured policy, 0-2 other pickers over the same endpoints (second policy, PickOne as used by authentication), 1-3 stretches with a readiness change in between, under a drawn statement-level schedule of Pop(); distinct = distinct trace hash; non-trivial = at least 4 measured picks over at least 2 endpoints. Profile c14h-http (gw world): sequential proxied requests, most of them token-authenticated (authentication picks an endpoint for every request), every window checked",
+		Rule: "each run = drawn cluster (1-5 endpoints, explicit subset in drawn order or all endpoints with tape-permuted map order), 1-3 concurrent picker threads of the measured policy, 0-2 other pickers over the same endpoints (second policy, PickOne as used by authentication), 1-3 stretches with a readiness change in between, under a drawn statement-level schedule of Pop(); distinct = distinct trace hash; non-trivial = at least 4 measured picks over at least 2 endpoints. In one run in two a resync thread re-applies the cluster with an unchanged server list (identical object, another logging mode, another label) 1-3 times per stretch while the picks go on: the ready set does not change, so the windows span the re-applications. Profile c14h-http (gw world): sequential proxied requests, most of them token-authenticated (authentication picks an endpoint for every request), every window checked",
 		Real: []string{"pkg/clusters ClusterInfo (CreateClusterInfo, Sync, MatchAttributes, PickOne, endpointPickStrategy.Pop yield-instrumented), EndpointInfo status"},
 		Stub: []string{"picker threads; endpoint health set directly through EndpointInfo.UpdateStatus (no probes in this world)"},
 		Assume: []string{
@@ -198,9 +263,11 @@ func init() {
 			{World: "gw", Profile: "c03-nofault", Quick: 60, Thor: 3000, PerProc: 1, FaultFree: true},
 			{World: "gw", Profile: "c03-faults", Quick: 140, Thor: 7000, PerProc: 1},
 			{World: "gw", Profile: "c03p-preempt-faults", Quick: 150, Thor: 8000, PerProc: 1},
+			{World: "ilv", Profile: "c03i-match", Quick: 6000, Thor: 300000, PerProc: 500, FaultFree: true},
 		},
-		Rule: "each run = one cluster with 1-4 endpoints and two verb-distinguished policies with drawn subsets; 15-70 drawn steps of: client request (held at the stub or not), release of a held request (possibly reset/5xx/truncated), spec update (disable/enable, remove/add server, change a subset), health/connectivity change of a stub (500, hang, reset, refused), clock advance (0.2-11 s); distinct = distinct trace hash; non-trivial = at least one request forwarded AND at least one spec or health change. Profile c03p-preempt*: the same histories with preemption fuzzing (the gateway's own goroutines give up the processor at one in three statements of upstream_controller.go and clusterinfo.go; a PRNG of the run decides)",
-		Real: gwReal, Stub: gwStub, Assume: gwAssume,
+		Rule:     "each run = one cluster with 1-4 endpoints and two verb-distinguished policies with drawn subsets; 15-70 drawn steps of: client request (held at the stub or not), release of a held request (possibly reset/5xx/truncated), spec update (disable/enable, remove/add server, change a subset), health/connectivity change of a stub (500, hang, reset, refused), clock advance (0.2-11 s); distinct = distinct trace hash; non-trivial = at least one request forwarded AND at least one spec or health change. Profile c03p-preempt*: the same histories with preemption fuzzing (the gateway's own goroutines give up the processor at one in three statements of upstream_controller.go and clusterinfo.go; a PRNG of the run decides). In every spec update of these profiles 0-2 requests are sent at the same instant as the update (nothing settles in between); such a request may see each attribute of an endpoint in its old or its new value. Spec updates also reorder the two policies and put a third policy in front of them. Profile c03i-match (ilv world, cooperative scheduler over the yield-instrumented clusterinfo.go): 1-3 request threads doing MatchAttributes + Pop (2-8 picks each) against one thread applying 1-5 spec versions through ClusterInfo.Sync (servers disabled/enabled, policies rotated, a policy put in front or removed, subsets changed; all endpoints healthy) under a drawn statement-level schedule with a drawn pace and an optional stall of the applying thread; a pick must be explained by the spec versions in force at some moment of the call",
+		NeedInst: []string{"pkg/clusters/clusterinfo.go"},
+		Real:     gwReal, Stub: gwStub, Assume: gwAssume,
 	})
 	reg(&Check{
 		ID:    "C04",
@@ -209,7 +276,7 @@ func init() {
 			{World: "gw", Profile: "c04-nofault", Quick: 120, Thor: 6000, PerProc: 1, FaultFree: true},
 			{World: "gw", Profile: "c04-faults", Quick: 60, Thor: 3000, PerProc: 1},
 		},
-		Rule: "each run = 6-30 drawn client requests written as raw HTTP/1.1 bytes (method, path segments with escaped bytes, query pairs incl. empty/repeated/encoded/malformed, end-to-end and hop-by-hop headers, X-Forwarded-For chains, bodies 0 B-256 KiB with Content-Length or chunked) against drawn scripted upstream answers (status 200-503, header sets, bodies fixed or streamed in pieces), plus gateway-terminated cases provoked through state (unknown host, DenyAllRequests gate, cluster without reachable endpoint, exhausted limiter, refused impersonation); fault profile: upstream connection reset/truncated; distinct = distinct trace hash; non-trivial = at least one forwarded request compared end to end",
+		Rule: "each run = 6-30 drawn client requests written as raw HTTP/1.1 bytes (method, path segments with escaped bytes, query pairs incl. empty/repeated/encoded/malformed, end-to-end and hop-by-hop headers, X-Forwarded-For chains, bodies 0 B-256 KiB with Content-Length or chunked) against drawn scripted upstream answers (status 200-503, header sets, bodies fixed or streamed in pieces), plus gateway-terminated cases provoked through state (unknown host, DenyAllRequests gate, cluster without reachable endpoint, exhausted limiter, refused impersonation); non-resource URLs of every depth (/apis, /api/v1, /apis/apps/v1, /openapi/v2, /custom/a/b/c/d, ...) next to resource paths; one upstream answer in four is slow (the upstream takes 0 / 0.2 / 2 / 6 / 31 / 61 s before it answers; the shipped chain has no request time-out); fault profile: upstream connection reset/truncated; distinct = distinct trace hash; non-trivial = at least one forwarded request compared end to end",
 		Real: gwReal, Stub: gwStub, Assume: append([]string{"the path is compared decoded (the dispatcher rebuilds the URL from URL.Path: %2F arrives as /, recorded as an observation); query pairs url.ParseQuery rejects are outside 'query parameters'", "the HTTP layer may add User-Agent/Accept-Encoding upstream and Cache-Control/Date/Content-Length/Transfer-Encoding/Connection/sniffed Content-Type downstream"}, gwAssume...),
 	})
 	reg(&Check{
@@ -238,9 +305,9 @@ func init() {
 		Title: "Removal: deleted clusters/endpoints get no traffic; in-flight requests are cut",
 		Batches: []Batch{
 			{World: "gw", Profile: "c15-removal", Quick: 150, Thor: 8000, PerProc: 1, FaultFree: true},
-			{World: "gw", Profile: "c15p-preempt", Quick: 100, Thor: 6000, PerProc: 1},
+			{World: "gw", Profile: "c15p-preempt", Quick: 200, Thor: 8000, PerProc: 1},
 		},
-		Rule: "each run = cluster alpha (endpoints e0,e1 behind verb-distinguished policies) and bystander cluster beta; 6-12 requests in drawn phases of their life (parked in TokenReview before the pick, held at the upstream before headers, mid-stream of a chunked long-running response with drawn progress), then one drawn removal (delete the cluster, remove e0, replace e0 by a new endpoint); afterwards: victims must end at the client within 2 simulated seconds without further stimulus, the removed endpoint's server must see the cancellation, new requests get 503 / never reach the removed endpoint, bystander streams receive their next chunk, probing of the removed endpoint stops and of the others continues; distinct = distinct trace hash; non-trivial = at least one request was in flight to what was removed. Before the requests are sent alpha goes through 0-2 earlier versions in which one of its endpoints is disabled and enabled again (so that endpoints about to be removed have been through the update path, not only the create path). Profile c15p-preempt*: the same histories with preemption fuzzing (the gateway's own goroutines give up the processor at one in three statements of upstream_controller.go and clusterinfo.go; a PRNG of the run decides)",
+		Rule: "each run = cluster alpha (endpoints e0,e1 behind verb-distinguished policies) and bystander cluster beta; 6-12 requests in drawn phases of their life (parked in TokenReview before the pick, held at the upstream before headers, mid-stream of a chunked long-running response with drawn progress), then one drawn removal (delete the cluster, remove e0, replace e0 by a new endpoint); afterwards: victims must end at the client within 2 simulated seconds without further stimulus, the removed endpoint's server must see the cancellation, new requests get 503 / never reach the removed endpoint, bystander streams receive their next chunk, probing of the removed endpoint stops and of the others continues; distinct = distinct trace hash; non-trivial = at least one request was in flight to what was removed. Before the requests are sent alpha goes through 0-2 earlier versions in which one of its endpoints is disabled and enabled again (so that endpoints about to be removed have been through the update path, not only the create path). At the end, one run in two, something exists for an instant: a third cluster is created (and possibly updated) and deleted again, or an endpoint of alpha is added and removed again, before anything settles (both events wait for the controller at once); 13 s later the cluster must answer 503 and none of those endpoints may have been probed after 6.5 s. Profile c15p-preempt*: the same histories with preemption fuzzing (the gateway's own goroutines give up the processor at one in three statements of upstream_controller.go and clusterinfo.go; a PRNG of the run decides)",
 		Real: gwReal, Stub: gwStub, Assume: append([]string{"'promptly' is read as 2 simulated seconds; 'probing stops' as no probe later than one interval (5 s) plus 1.5 s after the removal"}, gwAssume...),
 	})
 	reg(&Check{
@@ -250,7 +317,7 @@ func init() {
 			{World: "gw", Profile: "c12-hosts", Quick: 120, Thor: 6000, PerProc: 1},
 			{World: "gw", Profile: "c12-alias", Quick: 80, Thor: 4000, PerProc: 1},
 		},
-		Rule: "each run = 2-3 clusters whose stubs map the same tokens to different users and answer the same impersonation SAR differently, drawn cache TTLs (0 / 2 s / default), 15-55 steps of: request to a drawn host (names in mixed case, aliases) with a drawn token and optional impersonation, time gaps around the TTLs (0.5 s - 11 min), changes of a cluster's own answers (token remapped/revoked, SAR flipped), a cluster made unreachable and back, delete and re-create; profile c12-alias also moves a server name from one live cluster to another; the oracle attributes every forwarded identity and every review to the cluster the host resolves to; distinct = distinct trace hash; non-trivial = at least two forwarded requests with two or more clusters. One token names the same user in every cluster; in 'twin' steps that user sends the identical impersonation request to two clusters at the same time while the first cluster's SubjectAccessReview is held at a sim point",
+		Rule: "each run = 2-3 clusters whose stubs map the same tokens to different users and answer the same impersonation SAR differently, drawn cache TTLs (0 / 2 s / default), 15-55 steps of: request to a drawn host (names in mixed case, aliases) with a drawn token and optional impersonation, time gaps around the TTLs (0.5 s - 11 min), changes of a cluster's own answers (token remapped/revoked, SAR flipped), a cluster made unreachable and back, delete and re-create; profile c12-alias also moves a server name from one live cluster to another; the oracle attributes every forwarded identity and every review to the cluster the host resolves to; distinct = distinct trace hash; non-trivial = at least two forwarded requests with two or more clusters. One token names the same user in every cluster; in 'twin' steps that user sends the identical impersonation request to two clusters at the same time while the first cluster's SubjectAccessReview is held at a sim point. In 'churn' steps a cluster answers an impersonation question, is deleted, another cluster is created anew (deleted first if it lives) and is asked the same question as its first",
 		Real: gwReal, Stub: gwStub, Assume: append([]string{"a cached answer may be as old as the longest configured TTL plus 50 ms", "the alias-move profile goes beyond the literal quantifier (hosts are fixed there) but not beyond the statement"}, gwAssume...),
 	})
 	reg(&Check{
@@ -293,7 +360,7 @@ func init() {
 			{World: "rl", Profile: "c09i-wrapper", Quick: 1500, Thor: 60000, PerProc: 1},
 			{World: "rl", Profile: "c09t-tbwrapper", Quick: 800, Thor: 30000, PerProc: 1},
 		},
-		Rule:     "each run = one gateway instance's real limiter stack (clientsets with heartbeat/readiness hysteresis, UpstreamLimiter, reconcile loop, global counter manager, wrappers, meters) for one cluster with 1-2 schemas (max-in-flight or token bucket x allocate or count strategy, local <= global), 20-120 steps of request bursts with drawn hold times, clock advances (50 ms - 6 s), server readiness flaps, leader unknown, partitions, against a scripted server that answers allocate/acquire with arbitrary int32 quotas and bursts (0, negative, > configured, MaxInt32), accept/reject, error strings and failures; then faults stop, the server answers an honest quota and the bounded-liveness clause is checked; distinct = distinct trace hash; non-trivial = requests were admitted through the server-controlled limiter and also refused or admitted locally. Max-in-flight schemas are reconfigured during the run (new local/global limits; after a lowering the previous limit is tolerated until the second allocate answer has come back, i.e. until a reconcile round that began after the change has completed) and the server may turn stale (repeats its previous answer per schema)",
+		Rule:     "each run = one gateway instance's real limiter stack (clientsets with heartbeat/readiness hysteresis, UpstreamLimiter, reconcile loop, global counter manager, wrappers, meters) for one cluster with 1-2 schemas (max-in-flight or token bucket x allocate or count strategy, local <= global), 20-120 steps of request bursts with drawn hold times, clock advances (50 ms - 6 s), server readiness flaps, leader unknown, partitions, against a scripted server that answers allocate/acquire with arbitrary int32 quotas and bursts (0, negative, > configured, MaxInt32), accept/reject, error strings and failures; then faults stop, the server answers an honest quota and the bounded-liveness clause is checked; distinct = distinct trace hash; non-trivial = requests were admitted through the server-controlled limiter and also refused or admitted locally. Max-in-flight schemas are reconfigured during the run (new local/global limits; after a lowering the previous limit is tolerated until the second allocate answer has come back, i.e. until a reconcile round that began after the change has completed) and the server may turn stale (repeats its previous answer per schema). Profile c09i-wrapper (rl world, bubble + cooperative scheduler): the count-strategy max-in-flight wrapper of one schema with its three callers as sim threads interleaved at statement granularity - the global counter delivering 1-5 server answers (error, accept / refuse with limits from 0 to 2^30, stale id), the reconcile loop applying 1-3 changed limits (local config, then Sync -> Resize), 2-5 requests (TryAcquire, hold, Release; a request waiting for an answer is left to its 300 ms time-out); each admission is judged against the loosest global limit in force at some moment of its TryAcquire call, and after quiescence at most the current global limit can be taken. Profile c09t-tbwrapper: the same for the token-bucket wrapper (3-40 answers, mostly accepts; admissions stamped on the fake clock and bounded per window by qps*T + burst of the loosest limits in force at some moment of the window, one fresh burst per change inside it)",
 		NeedInst: []string{"pkg/flowcontrols/remote/global_flowcontrol.go"},
 		Real:     []string{"pkg/ratelimiter/clientsets (server-info sync, heartbeats, readiness hysteresis, client cache) over the simulated network", "pkg/flowcontrols UpstreamLimiter.Load/Sync/ResetLimiter", "pkg/flowcontrols/remote (reconcile loop, FlowControlCache, remote/local wrappers, global counter manager, maxInflight/tokenBucket wrappers, meters)", "client-go REST client encoding/decoding"},
 		Stub:     []string{"the limiter server (byzantine script: the property quantifies over whatever the server answers)", "request threads (GetOrDefault/TryAcquire/hold/Release as the dispatcher does)", "network (simnet round tripper with partitions), fake clock"},
@@ -305,8 +372,9 @@ func init() {
 		Batches: []Batch{
 			{World: "rl", Profile: "c07-sequences", Quick: 200, Thor: 10000, PerProc: 1, FaultFree: true},
 			{World: "rl", Profile: "c07o-overlap", Quick: 150, Thor: 8000, PerProc: 1, FaultFree: true},
+			{World: "rl", Profile: "c07h-handover", Quick: 200, Thor: 8000, PerProc: 1},
 		},
-		Rule:     "each run = 1-2 replicas with real lease election, 1-3 shards, 1-2 upstreams with a max-in-flight and optionally a token-bucket schema (global limits 1 ... 100000), 2-6+ honest instances (each echoes exactly the quota it was last answered, reports used >= 0 and RequestLevel = floor(100*used/current)), 20-80 steps of reports, limit changes through the real upstream controller (raise, lower below the allocated sum), clock advances, instances leaving and joining; after every answered report the quotas the leader has on record are read back through its exposed API; distinct = distinct trace hash; non-trivial = at least 5 answered reports from 2+ instances. Profile c07o-overlap: one leading replica (store local or API-backed), 2-4 instances, 3-12 rounds in each of which 1-3 honest reports run as sim threads through the yield-instrumented UpdateRateLimitConditionStatus under a drawn statement-level schedule; the over-commit clause is evaluated with the recorded sum at the start of the round",
+		Rule:     "each run = 1-2 replicas with real lease election, 1-3 shards, 1-2 upstreams with a max-in-flight and optionally a token-bucket schema (global limits 1 ... 100000), 2-6+ honest instances (each echoes exactly the quota it was last answered, reports used >= 0 and RequestLevel = floor(100*used/current)), 20-80 steps of reports, limit changes through the real upstream controller (raise, lower below the allocated sum), clock advances, instances leaving and joining; after every answered report the quotas the leader has on record are read back through its exposed API; distinct = distinct trace hash; non-trivial = at least 5 answered reports from 2+ instances. Profile c07o-overlap: one leading replica (store local or API-backed), 2-4 instances, 3-12 rounds in each of which 1-3 honest reports run as sim threads through the yield-instrumented UpdateRateLimitConditionStatus under a drawn statement-level schedule; the over-commit clause is evaluated with the recorded sum at the start of the round. Profile c07h-handover: the c07-sequences workload and oracle with two replicas and the API-backed store (write-through, or periodic 1 s), plus crashes, lease-API cuts (graceful loss of leadership) and restarts; reports are answered by whoever leads; a report is judged against the records of the single leader that answered it, read before and after; non-trivial also needs a report answered after a leader change",
 		NeedInst: []string{"pkg/ratelimiter/limiter/ratelimter.go"},
 		Real:     rlReal, Stub: rlStub, Assume: append([]string{"'honest' = echoes the last answered quota, used >= 0, RequestLevel = floor(100*used/current); an instance whose record was reclaimed still echoes its last quota"}, rlAssume...),
 	})
@@ -316,9 +384,11 @@ func init() {
 		Batches: []Batch{
 			{World: "rl", Profile: "c13-nofault", Quick: 60, Thor: 3000, PerProc: 1, FaultFree: true},
 			{World: "rl", Profile: "c13-faults", Quick: 140, Thor: 7000, PerProc: 1},
+			{World: "rl", Profile: "c13i-leadercheck", Quick: 300, Thor: 15000, PerProc: 1, FaultFree: true},
 		},
-		Rule: "each run = N in {1,2,3,5} shards, 2-3 replicas with real lease election (3 s leases), store local or API-backed, 2-4 upstreams, two gateway client sets; shard function observed for odd byte strings on both sides; 20-90 steps of allocate/acquire RPCs sent to a drawn replica (leader or not), clock advances, and faults: a replica cut off from the API server (leases expire), crash, restart, gateway-replica partitions; leadership is taken in each replica's own view at the boundaries around every call; distinct = distinct trace hash; non-trivial = at least one RPC served and one refused. Profile c09i-wrapper (rl world, bubble + cooperative scheduler): the count-strategy max-in-flight wrapper of one schema with its three callers as sim threads interleaved at statement granularity - the global counter delivering 1-5 server answers (error, accept / refuse with limits from 0 to 2^30, stale id), the reconcile loop applying 1-3 changed limits (local config, then Sync -> Resize), 2-5 requests (TryAcquire, hold, Release; a request waiting for an answer is left to its 300 ms time-out); each admission is judged against the loosest global limit in force at some moment of its TryAcquire call, and after quiescence at most the current global limit can be taken. Profile c09t-tbwrapper: the same for the token-bucket wrapper (3-40 answers, mostly accepts; admissions stamped on the fake clock and bounded per window by qps*T + burst of the loosest limits in force at some moment of the window, one fresh burst per change inside it)",
-		Real: rlReal, Stub: rlStub, Assume: append([]string{"leadership in a replica's own view may overlap with another's for less than a lease under partition: the oracle does not assume a unique leader", "the range/determinism of the shard function over all names is only sampled (a pure function, see DESIGN §6)"}, rlAssume...),
+		Rule:     "each run = N in {1,2,3,5} shards, 2-3 replicas with real lease election (3 s leases), store local or API-backed, 2-4 upstreams, two gateway client sets; shard function observed for odd byte strings on both sides; 20-90 steps of allocate/acquire RPCs sent to a drawn replica (leader or not), clock advances, and faults: a replica cut off from the API server (leases expire), crash, restart, gateway-replica partitions; leadership is taken in each replica's own view at the boundaries around every call; distinct = distinct trace hash; non-trivial = at least one RPC served and one refused. Profile c13i-leadercheck (one replica whose real election loops never get a lease; bubble + cooperative scheduler over ratelimter.go and leader_elector.go): 4-14 rounds in each of which, per shard, at most one election event (started leading + new-leader report in either order, stopped leading, another leader observed) is delivered through the real elector methods and their callbacks, the periodic leader check runs, and 0-2 allocate/acquire calls arrive, all as sim threads under a drawn statement-level schedule; after a round (one in two, and the last) two undisturbed leader checks run and the in-memory stores must be exactly the led shards; a call whose shard was led at no moment of the call must be refused",
+		NeedInst: []string{"pkg/ratelimiter/limiter/ratelimter.go", "pkg/ratelimiter/limiter/elector/leader_elector.go"},
+		Real:     rlReal, Stub: rlStub, Assume: append([]string{"leadership in a replica's own view may overlap with another's for less than a lease under partition: the oracle does not assume a unique leader", "the range/determinism of the shard function over all names is only sampled (a pure function, see DESIGN §6)"}, rlAssume...),
 	})
 	reg(&Check{
 		ID:    "C18",
